@@ -119,7 +119,9 @@ func catalogue(thorough bool) []colType {
 		loc := time.FixedZone("UTC+8", 8*3600)
 		times = append(times, time.Date(2024, 2, 29, 13, 14, 15, 0, loc), time.Date(2024, 6, 1, 0, 0, 0, 5000, time.FixedZone("", -3*3600)))
 	}
-	dates := []driver.Value{time.Date(2024, 2, 29, 0, 0, 0, 0, utc), time.Date(1970, 1, 1, 0, 0, 0, 0, utc), time.Date(9999, 12, 31, 0, 0, 0, 0, utc), time.Time{}}
+	dates := []driver.Value{time.Date(2024, 2, 29, 0, 0, 0, 0, utc), time.Date(1970, 1, 1, 0, 0, 0, 0, utc), time.Date(9999, 12, 31, 0, 0, 0, 0, utc), time.Time{},
+		// what the driver hands back for a DATE column under loc=<zone>: midnight in that zone (sixth-round seed)
+		time.Date(2024, 3, 5, 0, 0, 0, 0, time.FixedZone("UTC+8", 8*3600)), time.Date(2024, 3, 5, 0, 0, 0, 0, time.FixedZone("UTC-5", -5*3600))}
 	return []colType{
 		{"BIT", []driver.Value{[]byte{1}, []byte{0}, b("1"), int64(1)}},
 		{"TINYINT", ints(-128, -1, 0, 1, 127, 255)},
